@@ -103,6 +103,23 @@ CHECKS.update({
     ),
 })
 
+CHECKS.update({
+    "C05": (
+        "fault_enumeration",
+        "fault injection at every density evaluation index x fault kind, runtime oracle on call results",
+        "A scenario (set_position + draws through warmup into sampling + 10 follow-up draws) per preset x kinetic/trajectory kind x "
+        "dimension x (MCLMC) dynamic step size is run once fault-free; then every evaluation index is combined with each of 7 fault "
+        "kinds (recoverable / unrecoverable error, NaN / +inf / -inf logp, NaN / inf gradient component) - exhaustive for single "
+        "faults, seeded for pairs. Each call runs under catch_unwind. Oracles: no panic; the call evaluating an unrecoverable error "
+        "returns Err; a recoverable fault at a leapfrog makes the draw divergent (MCLMC dynamic: or retried with more evaluations than "
+        "steps); returned position finite, logp finite, equal to an un-faulted evaluated state; MCLMC divergent draws do not move; "
+        "step size positive finite; recoverable faults never make a later call fail; the chain is not stuck divergent afterwards.",
+        "An invalid *initial point* may be refused by set_position. The site of a fault (trajectory vs step-size search) is taken from "
+        "the fault-free run, which is valid because the runs are deterministic up to the first fault.",
+        "DESIGN.md §3 C05",
+    ),
+})
+
 NOT_YET = {}
 
 
